@@ -418,17 +418,18 @@ fn eval(e: &E, pool: &[T], mu: &[Option<usize>; 4], dv: &Dv) -> Res {
 /// does the engine's answer (bound term or unbound, FILTER kept or not) agree with the oracle's?
 /// None = the oracle cannot tell
 fn agrees(o: &Res, bound: &Option<T>, kept: bool, dv: &Dv) -> Option<bool> {
-    let num_matches = |n: &Num, t: &T, want_dt: &str| -> bool {
-        let T::Lit(lex, dt) = t else { return false };
-        if dt != want_dt { return false }
+    // Some(false) = definitely not the expected literal; None = the oracle cannot read the engine's literal (beyond i128)
+    let num_matches = |n: &Num, t: &T, want_dt: &str| -> Option<bool> {
+        let T::Lit(lex, dt) = t else { return Some(false) };
+        if dt != want_dt { return Some(false) }
         let strict = Dv::default();
         let inf_ok = dv.inf_lex && matches!(lex.as_str(), "inf" | "-inf");
-        match n {
-            Num::I(v) => xsd_integer(lex, &strict) == Some(Some(*v)),
-            Num::D(m, s) => { let lenient = Dv { lex: dv.dec_sci, ..strict }; xsd_decimal(lex, &lenient) == Some(Some(Num::D(*m, *s))) }
+        Some(match n {
+            Num::I(v) => match xsd_integer(lex, &strict) { Some(None) => return None, r => r == Some(Some(*v)) },
+            Num::D(m, s) => { let lenient = Dv { lex: dv.dec_sci, ..strict }; match xsd_decimal(lex, &lenient) { Some(None) => return None, r => r == Some(Some(Num::D(*m, *s))) } }
             Num::F(f) => (xsd_float_syntax(lex, &strict) || inf_ok) && lex.parse::<f32>().is_ok_and(|g| g.to_bits() == f.to_bits() || (g.is_nan() && f.is_nan())),
             Num::Db(f) => (xsd_float_syntax(lex, &strict) || inf_ok) && lex.parse::<f64>().is_ok_and(|g| g.to_bits() == f.to_bits() || (g.is_nan() && f.is_nan())),
-        }
+        })
     };
     let (bind_ok, keep) = match o {
         Err(Er::Unknown) => return None,
@@ -437,8 +438,8 @@ fn agrees(o: &Res, bound: &Option<T>, kept: bool, dv: &Dv) -> Option<bool> {
             (_, None) => false,
             (R::T(t), Some(b)) => t.same(b),
             (R::B(v), Some(b)) => *b == lit(if *v { "true" } else { "false" }, "boolean"),
-            (R::N(n), Some(b)) => num_matches(n, b, &num_dt(n)),
-            (R::StrOfNum(n), Some(b)) => num_matches(n, &match b { T::Lit(l, d) if *d == x("string") => T::Lit(l.clone(), num_dt(n)), _ => T::Iri(String::new()) }, &num_dt(n)),
+            (R::N(n), Some(b)) => num_matches(n, b, &num_dt(n))?,
+            (R::StrOfNum(n), Some(b)) => num_matches(n, &match b { T::Lit(l, d) if *d == x("string") => T::Lit(l.clone(), num_dt(n)), _ => T::Iri(String::new()) }, &num_dt(n))?,
         }, ebv(r, dv)),
     };
     match keep { Err(Er::Unknown) => None, k => Some(bind_ok && kept == (k == Ok(true))) }
@@ -486,7 +487,7 @@ fn pool() -> Vec<(&'static str, T)> {
     for (l, d) in [("1", "byte"), ("127", "byte"), ("-128", "byte"), ("255", "unsignedByte"), ("+5", "unsignedInt"), ("-5", "negativeInteger"), ("0", "nonPositiveInteger"), ("18446744073709551615", "unsignedLong"), ("9223372036854775807", "long"), ("1", "positiveInteger"), ("0", "nonNegativeInteger"), ("-0", "nonNegativeInteger"), ("32767", "short"), ("2147483647", "int")] { p.push(("int-derived", lit(l, d))) }
     for (l, d) in [("128", "byte"), ("-129", "byte"), ("-1", "nonNegativeInteger"), ("0", "positiveInteger"), ("1", "negativeInteger"), ("256", "unsignedByte"), ("18446744073709551616", "unsignedLong"), ("abc", "long"), ("1_0", "int"), ("1_0", "nonNegativeInteger"), ("-1", "unsignedInt"), ("1.0", "short")] { p.push(("int-derived-ill", lit(l, d))) }
     for l in ["-0", "-00"] { p.push(("unsigned-minus-zero", lit(l, "unsignedByte"))) }
-    for l in ["0.0", "1.5", "-1.5", "2.0", "0.1", "1.10", ".5", "5.", "+5.0", "0.0000001", "-0.00000012", "0.000001", "123456789012345678901234567890.5", "3.0", "0.25"] { p.push(("decimal", lit(l, "decimal"))) }
+    for l in ["0.0", "1.0", "1.5", "-1.5", "2.0", "0.1", "1.10", ".5", "5.", "+5.0", "0.0000001", "-0.00000012", "0.000001", "123456789012345678901234567890.5", "3.0", "0.25"] { p.push(("decimal", lit(l, "decimal"))) }
     for l in ["1e3", "1_0.5", ".", "abc", "", "1.2.3", "1E-2", "+", "1.5e0", ".-5", ".+5", "1.-5", "-.", "1__0", "5._"] { p.push(("decimal-ill", lit(l, "decimal"))) }
     for l in ["0", "-0.0", "1", "1.5", "0.1", "3.4e38", "1e-45", "16777217", "2", "-2.5", "1e10"] { p.push(("float", lit(l, "float"))) }
     for l in ["NaN", "INF", "-INF", "+INF"] { p.push(("float-special", lit(l, "float"))) }
@@ -541,6 +542,7 @@ impl<'a> Gen<'a> {
 const BINOPS: [B2; 12] = [B2::Eq, B2::SameTerm, B2::Lt, B2::Le, B2::Gt, B2::Ge, B2::Add, B2::Sub, B2::Mul, B2::Div, B2::Or, B2::And];
 
 fn main() {
+    std::panic::set_hook(Box::new(|_| {})); // panics of the engine are caught and reported per case
     let a = parse_args();
     let pool_l = pool();
     let pool_t: Vec<T> = pool_l.iter().map(|p| p.1.clone()).collect();
@@ -588,13 +590,31 @@ fn main() {
     let nc = classes.len();
     let base = Rng::new(a.seed);
     let mut cases = vec![]; let mut seen = HashSet::new();
-    let range: Vec<usize> = match a.only { Some(i) => vec![i], None => (0..a.n).collect() };
+    // the witnesses of the Coq `..._refuted` Examples (ExprProofs.v), replayed verbatim: case ids 1000000 + j
+    const WBASE: usize = 1_000_000;
+    let k_ = |l: &str, d: &str| E::Const(idx_of(&lit(l, d)));
+    let witnesses: Vec<E> = vec![
+        E::If(bx(E::Const(idx_of(&T::Iri("tag:x".into())))), bx(k_("1", "integer")), bx(k_("2", "integer"))),
+        E::Not(bx(bin(B2::Eq, k_("foo", "boolean"), k_("true", "boolean")))),
+        bin(B2::Eq, k_("foo", "dateTime"), k_("bar", "dateTime")),
+        E::Not(bx(k_("NaN", "float"))),
+        E::Not(bx(k_("abc", "integer"))),
+        E::Not(bx(bin(B2::Lt, k_("NaN", "double"), k_("1", "integer")))),
+        bin(B2::Add, k_("1_0", "integer"), k_("0", "integer")),
+        bin(B2::Add, k_(".-5", "decimal"), k_("0", "integer")),
+        bin(B2::Eq, k_("inf", "double"), k_("INF", "double")),
+        bin(B2::Mul, k_("0.0000001", "decimal"), k_("1.0", "decimal")),
+        bin(B2::Add, k_("-0", "unsignedByte"), k_("1", "integer")),
+        E::In(bx(k_("2", "integer")), vec![bin(B2::Div, k_("1", "integer"), k_("0", "integer")), k_("2", "integer")]),
+        bin(B2::Div, k_("1e0", "double"), k_("0e0", "double")),
+    ];
+    let range: Vec<usize> = match a.only { Some(i) => vec![i], None => (0..a.n).chain(WBASE..WBASE + witnesses.len()).collect() };
     let mut explained: BTreeMap<String, u64> = BTreeMap::new();
     for idx in range {
         let mut g = Gen { r: base.fork(idx as u64), pool: &pool_l, classes: &classes };
         let mut mu: [Option<usize>; 4] = [None; 4];
         let k = idx / 5;
-        let (stream, e) = match idx % 5 {
+        let (stream, e) = if idx >= WBASE { if idx - WBASE >= witnesses.len() { continue } ("witness", witnesses[idx - WBASE].clone()) } else { match idx % 5 {
             0 | 1 => { let d = g.r.range(1, 4); ("random", g.tree(d, &mut mu)) }
             2 => { // every binary operator x every ordered pair of classes
                 let op = BINOPS[k % 12]; let pair = (k / 12) % (nc * nc);
@@ -639,7 +659,7 @@ fn main() {
                     _ => { let c = *g.r.pick(&["other-literal", "int-ill", "boolean-ill", "dateTime-ill"]); let x = t(&mut g, c, &mut mu); bin(*g.r.pick(&[B2::Le, B2::Ge, B2::Lt, B2::Eq]), x.clone(), x) }
                 })
             },
-        };
+        } };
         let mut pr = g.r.fork(77);
         let text = e.sparql(&pool_t, &mut pr);
         let (o1, o2, q1) = eval_engine(&pool_t, &mu, &text);
@@ -665,10 +685,15 @@ fn main() {
             None => sum.bump("oracle:cannot-tell"),
             Some(true) => sum.bump("oracle:agrees"),
             Some(false) => {
-                // which known deviations explain the answer?  smallest set first
-                let mut masks: Vec<u32> = (1..1024).collect(); masks.sort_by_key(|m| m.count_ones());
-                let cls = masks.iter().find(|m| { let dv = dv_of(**m); agrees(&eval(&e, &pool_t, &mu, &dv), &bound, kept, &dv) == Some(true) })
-                    .map(|m| (0..10).filter(|i| m & (1 << i) != 0).map(|i| DV_NAMES[i]).collect::<Vec<_>>().join("+")).unwrap_or("UNEXPLAINED".into());
+                // which known deviations (among those the engine under test still has) explain the answer?  smallest set first
+                let present: u32 = (0..7).filter(|i| !cfg[*i as usize]).map(|i| 1u32 << i).sum::<u32>() | (1 << 7) | (1 << 8) | if cfg[7] { 0 } else { 1 << 9 };
+                let mut masks: Vec<u32> = (1..1024u32).filter(|m| m & !present == 0).collect(); masks.sort_by_key(|m| m.count_ones());
+                let verdicts: Vec<(u32, Option<bool>)> = masks.iter().map(|m| { let dv = dv_of(*m); (*m, agrees(&eval(&e, &pool_t, &mu, &dv), &bound, kept, &dv)) }).collect();
+                let name = |m: u32| (0..10).filter(|i| m & (1 << i) != 0).map(|i| DV_NAMES[i]).collect::<Vec<_>>().join("+");
+                let cls = match verdicts.iter().find(|(_, v)| *v == Some(true)) {
+                    Some((m, _)) => name(*m),
+                    None => match verdicts.iter().find(|(_, v)| v.is_none()) { Some((m, _)) => format!("{} (value beyond the oracle's arithmetic, not compared)", name(*m)), None => "UNEXPLAINED".into() },
+                };
                 *explained.entry(cls.clone()).or_default() += 1;
                 sum.bump(&format!("oracle:differs:{cls}"));
                 let want = match &spec { Err(_) => "an error (unbound, solution dropped)".to_string(), Ok(R::T(t)) => t.show(), Ok(R::B(b)) => format!("{b}"), Ok(R::N(n)) => format!("{n:?} as a valid {}", num_dt(n).replace(XSD, "xsd:")), Ok(R::StrOfNum(n)) => format!("a lexical form of {n:?}") };
